@@ -2,3 +2,65 @@ pub mod json_read;
 pub mod json_read_stream;
 mod json_tokenizer;
 pub mod json_write;
+
+/// Verification hook (compiled only with `--cfg bladeink_verif`): drive the
+/// streaming loader's tokenizer directly.
+#[cfg(bladeink_verif)]
+pub(crate) mod verif_hooks {
+    use super::json_tokenizer::{JsonTokenizer, JsonValue, Number};
+
+    /// Canonical quoting: `\\`, `\"`, `\u{hex}` for everything outside 0x20..0x7e.
+    fn q(s: &str) -> String {
+        let mut o = String::from("\"");
+        for c in s.chars() {
+            match c {
+                '\\' => o.push_str("\\\\"),
+                '"' => o.push_str("\\\""),
+                c if (c as u32) < 32 || (c as u32) > 126 => {
+                    o.push_str(&format!("\\u{{{:x}}}", c as u32))
+                }
+                c => o.push(c),
+            }
+        }
+        o.push('"');
+        o
+    }
+
+    fn show_number(n: &Number) -> String {
+        match n {
+            Number::Int(i) => format!("i:{}", i),
+            Number::Float(f) => format!("f:{:08x}", f.to_bits()),
+        }
+    }
+
+    /// Runs `ops` (one character each) on a fresh tokenizer over `s`:
+    /// `s` read_string, `k` read_obj_key, `n` read_number, `b` read_boolean,
+    /// `z` read_null, `v` read_value, `p` peek, `r` read, any other character
+    /// `c` is `expect(c)`.  One result per op.
+    pub(crate) fn tokenize(s: &str, ops: &str) -> Vec<String> {
+        let mut tok = JsonTokenizer::new_from_str(s);
+        let mut out = Vec::new();
+        for op in ops.chars() {
+            let r = match op {
+                's' => tok.read_string().map(|x| format!("s:{}", q(&x))),
+                'k' => tok.read_obj_key().map(|x| format!("s:{}", q(&x))),
+                'n' => tok.read_number().map(|x| show_number(&x)),
+                'b' => tok.read_boolean().map(|x| format!("b:{}", x)),
+                'z' => tok.read_null().map(|_| "null".to_owned()),
+                'v' => tok.read_value().map(|x| match x {
+                    JsonValue::Array => "array".to_owned(),
+                    JsonValue::Object => "object".to_owned(),
+                    JsonValue::String(x) => format!("s:{}", q(&x)),
+                    JsonValue::Number(x) => show_number(&x),
+                    JsonValue::Boolean(x) => format!("b:{}", x),
+                    JsonValue::Null => "null".to_owned(),
+                }),
+                'p' => tok.peek().map(|x| format!("c:{}", q(&x.to_string()))),
+                'r' => tok.read().map(|x| format!("c:{}", q(&x.to_string()))),
+                c => tok.expect(c).map(|_| "ok".to_owned()),
+            };
+            out.push(r.unwrap_or_else(|e| format!("err:{:?}", e.kind())));
+        }
+        out
+    }
+}
